@@ -133,7 +133,10 @@ pub fn gen_case(r: &mut Rng, out: &mut String) {
 
     // ---- the argument table
     for _ in 0..r.range(6, 14) {
-        let a = (value(r, nkeys) as u64).clamp(1, MAX - 2);
+        let mut a = (value(r, nkeys) as u64).clamp(1, MAX - 2);
+        if r.chance(1, 5) {
+            a = (a | 0xFFFF).clamp(1, MAX - 2); // anchor on the last value of a chunk: a + 1 starts the next one
+        }
         let len = range_len(r);
         let shapes = bound_shapes(a, len);
         let (lo, hi, small) = r.pick(&shapes).clone();
